@@ -6,6 +6,7 @@ NS = {"h": ""}  # the tree builder stores lower-cased tag names without namespac
 # p (paragraph-like: phrasing only), div (flow container), h1 (heading), ul/li (lists, nestable), table/thead/tbody/tr/td/th
 # (td is a flow container: tables nest through cells), span / a (phrasing, nestable), br / hr (void).
 # script / style / noscript ... never reach the tree (removed by the tree builder: C17).
+# caption: visible text of the table that is none of its cells.
 # Text directly inside ul / table / thead / tbody / tr is inter-element whitespace: no expectation.
 INLINE = "span a br"
 FLOW = "p div h1 ul table hr " + INLINE
@@ -16,7 +17,8 @@ div    = h:div -> {FLOW} ; text=vis ; tail=vis
 h1     = h:h1 -> {INLINE} ; text=vis ; tail=vis
 ul     = h:ul -> li ; tail=vis
 li     = h:li -> {INLINE} ul p ; text=vis ; tail=vis
-table  = h:table -> thead tbody tr ; tail=vis
+table  = h:table -> caption thead tbody tr ; tail=vis
+caption = h:caption -> {INLINE} ; text=vis
 thead  = h:thead -> tr
 tbody  = h:tbody -> tr
 tr     = h:tr -> td th
